@@ -953,6 +953,14 @@ class CallMixin:
         a0 = args[0] if args else None
         self.ev(frame, st, "ecall", n, callee=name, args=tuple(args), kwargs=tuple(sorted(kwargs.items())))
         kind = self.EXT_PURE.get(name)
+        if name.startswith("operator.") and a0 is not None:
+            # operator.or_(a, b) is a | b: dispatch to the dunder of the left operand
+            dunder = {"or_": "__or__", "and_": "__and__", "add": "__add__", "sub": "__sub__", "xor": "__xor__",
+                      "invert": "__invert__", "neg": "__neg__", "inv": "__invert__", "concat": "__add__"}.get(name.split(".", 1)[1])
+            if dunder is not None:
+                r = self.try_dunder(a0, dunder, list(args[1:]), n, st, frame)
+                if r is not None:
+                    return r
         if kind in ("deepcopy", "copy"):
             return _refresh(a0, fresh, deep=(kind == "deepcopy")) if a0 is not None else TOP
         if kind == "product":
@@ -984,7 +992,7 @@ class CallMixin:
             return AV(types=frozenset({"extobj"}), deps=deps, alias=fresh)
         top = name.split(".")[0]
         if top in ("networkx", "numpy", "re", "json", "string", "unicodedata", "random", "typing", "itertools",
-                   "collections", "queue", "copy", "abc"):
+                   "collections", "queue", "copy", "abc", "operator", "functools"):
             return AV(types=frozenset({"extobj"}), deps=deps, alias=fresh)
         self.unresolved(frame, st, n, "external call %s" % name)
         return AV(types=None, deps=deps)
